@@ -20,6 +20,7 @@ import (
 //   hooks        identity HookValueLoadPre / HookValueLoadPost / HookValueStore
 //   hooks2       identity HookValueLoadPre / HookValueLoadPost that calls doCompute only for computed values
 //   hookren      HookValueLoadPre that strips the prefix 困难 from every name it is asked for
+//   spnil:<k>    stream parser that reads k runes and declines with a nil result (no rewind of its own)
 //   spgroups     stream parser C<d>T<d> refilling one shared groups buffer; the handler adds the two numbers
 //   gnil         empty global table (GlobalValueLoadFunc -> nil) + identity GlobalValueLoadOverwriteFunc
 //   spexpr       stream parser: 'R' then an operand read with the stream's own ReadExpr; the handler evaluates the operand
@@ -167,6 +168,17 @@ func customLine(t []string) string {
 					}
 					return &ds.CustomDiceParseResult{Matched: false}, nil
 				}, handler("spnever"))
+			case strings.HasPrefix(sp, "spnil:"):
+				// a stream parser that reads k runes ahead and then declines with a nil result, without rewinding anything itself
+				k, _ := strconv.Atoi(sp[6:])
+				_ = vm.RegCustomDiceParser(func(ctx *ds.Context, s *ds.CustomDiceStream) (*ds.CustomDiceParseResult, error) {
+					for i := 0; i < k; i++ {
+						if _, ok := s.Read(); !ok {
+							break
+						}
+					}
+					return nil, nil
+				}, handler("spnil"))
 			case sp == "sphash":
 				_ = vm.RegCustomDiceParser(func(ctx *ds.Context, s *ds.CustomDiceStream) (*ds.CustomDiceParseResult, error) {
 					r, ok := s.Read()
